@@ -81,59 +81,66 @@ func C15(c *Ctx) {
 		}
 		nB++
 		param := pf.Type.Params.List[0].Names[0].Name
-		var fast *ast.IfStmt
-		curDef := ""
-		folded := false
-		for _, st := range pf.Body.List {
-			switch x := st.(type) {
-			case *ast.AssignStmt:
-				if nospace(x.Lhs[0]) == "cur" {
-					if curDef == "" {
-						curDef = nospace(x.Rhs[0])
-					} else if fast == nil {
-						folded = true
-					}
-				}
-			case *ast.IfStmt:
-				if fast == nil && strings.Contains(nospace(x.Cond), "cur<128") {
-					fast = x
-				} else if fast == nil {
-					// any earlier conditional (other than debug tracing) may change what the fast path sees
-					if !strings.Contains(nospace(x.Cond), "p.debug") {
-						folded = true
-					}
-				}
+		// on the normalised paths: with the rune as read (unfolded) below 128 the table entry alone decides - a hit
+		// consumes the rune and reports success, a miss reports failure and consumes nothing - and nothing else is
+		// consulted; at 128 and above the table is not touched
+		ok := true
+		detail := ""
+		bad := func(s string) {
+			ok = false
+			if detail == "" {
+				detail = s
 			}
 		}
-		ok := fast != nil && nospace(fast.Cond) == "cur<128" && curDef == "p.pt.rn" && !folded && mentions == 1
-		detail := ""
-		if ok {
-			// shape of the body
-			seq := ""
-			ast.Inspect(fast.Body, func(n ast.Node) bool {
-				switch x := n.(type) {
-				case *ast.IfStmt:
-					seq += "if(" + nospace(x.Cond) + ");"
-				case *ast.CallExpr:
-					if s := callSel(x); s == "read" || s == "failAt" || s == "sliceFrom" {
-						seq += s
-						if s == "failAt" {
-							seq += "(" + nospace(x.Args[0]) + ")"
-						}
-						seq += ";"
+		rn := "p.pt.rn"
+		entry := param + ".basicLatinChars[" + rn + "]"
+		nHit, nMiss := 0, 0
+		for _, p := range c.vnorm(v).without("read", "restore", "failAt", "sliceFrom", "in", "out", "addErr", "addErrAt").normPaths(pf) {
+			usesTable := false
+			for _, e := range p {
+				if strings.Contains(e.Text, param+".basicLatinChars") {
+					usesTable = true
+					if !strings.Contains(e.Text, entry) {
+						bad("the lookup table is indexed by something else than the rune as read: " + abbreviate(e.Text))
 					}
-				case *ast.ReturnStmt:
-					seq += "return " + nospace(x.Results[1]) + ";"
 				}
-				return true
-			})
-			want := "if(" + param + ".basicLatinChars[cur]!=" + param + ".inverted);read;failAt(true);return true;sliceFrom;failAt(false);return false;"
-			if seq != want {
-				ok = false
-				detail = "fast-path body is [" + seq + "]"
 			}
-		} else {
-			detail = fmt.Sprintf("fast path found=%t cur:=%s changed-before=%t mentions=%d", fast != nil, curDef, folded, mentions)
+			if !p.holds(rn + "<128") {
+				if usesTable {
+					bad("the lookup table is consulted on a path that does not establish " + rn + " < 128")
+				}
+				if !p.holds(rn+">=128") && p.evIndex("loop", 0, func(s string) bool { return strings.Contains(s, param+".") }) >= 0 {
+					bad("the general path is entered without testing the rune against 128")
+				}
+				continue
+			}
+			// fast path
+			if p.hasCall("unicode.ToLower(") {
+				bad("the rune is folded on the fast path (the table already contains both cases)")
+			}
+			if p.evIndex("loop", 0, func(s string) bool { return strings.Contains(s, param+".") }) >= 0 {
+				bad("the member lists are searched on the fast path")
+			}
+			hit := p.holds(entry+"!="+param+".inverted") || (p.holds(entry) && p.holds("!"+param+".inverted")) || (p.holds("!"+entry) && p.holds(param+".inverted"))
+			miss := p.holds(entry+"=="+param+".inverted") || (p.holds(entry) && p.holds(param+".inverted")) || (p.holds("!"+entry) && p.holds("!"+param+".inverted"))
+			ret := splitTop(lastReturn(p), ",")
+			switch {
+			case hit && !miss:
+				nHit++
+				if !p.hasCall("p.read()") || !p.hasCall("p.failAt(true,") || len(ret) != 2 || ret[1] != "true" || !strings.HasPrefix(ret[0], "p.sliceFrom(") {
+					bad("a table hit does not consume the rune, report success and return the matched text")
+				}
+			case miss && !hit:
+				nMiss++
+				if p.hasCall("p.read()") || !p.hasCall("p.failAt(false,") || len(ret) != 2 || ret[1] != "false" || ret[0] != "nil" {
+					bad("a table miss does not report failure without consuming")
+				}
+			default:
+				bad("the fast path is not decided by the table entry compared with the inverted flag [" + abbreviate(strings.Join(p.facts(), " ")) + "]")
+			}
+		}
+		if nHit == 0 || nMiss == 0 {
+			bad(fmt.Sprintf("fast path found=%t (hits %d, misses %d)", nHit+nMiss > 0, nHit, nMiss))
 		}
 		r.Check(ok, "C15-b", "T.parseCharClassMatcher:fast-path", v.Name, v.Where(pf.Pos()), "cur < 128 on the raw rune ⇒ table decision XOR inverted; otherwise the general path", detail)
 	}
